@@ -519,7 +519,18 @@ func (r *runner) stepActor(a *actor) *failure {
 	a.sec++
 	a.tries = 0
 	if a.sec == len(a.secs) {
-		// Done: Run returns nil without logging anything more
+		a.done = true // parked at Done; Run is let go only when every archetype is through (see finish)
+	}
+	return nil
+}
+
+// finish lets every archetype take its Done pseudo-label.  This happens only after all sections of all archetypes
+// have run: a terminated archetype closes its mailboxes, and a peer still sending to it would see network errors.
+func (r *runner) finish() *failure {
+	for _, a := range r.actors {
+		if a.g.Ended() {
+			continue
+		}
 		last := a.g.Step()
 		if !last.Ended || last.Err != nil || last.Panic != nil {
 			return r.fail("done/not-ended", "Run of %s did not end normally at Done: err=%v panic=%v", a.name, last.Err, last.Panic)
@@ -527,7 +538,15 @@ func (r *runner) stepActor(a *actor) *failure {
 		if !r.file && len(last.Events) != 0 {
 			return r.fail("events/after-done", "%d events logged for the Done pseudo-label of %s", len(last.Events), a.name)
 		}
-		a.done = true
+		if r.file {
+			evs, err := readTraceFile(a)
+			if err != nil {
+				return r.fail("file/unreadable", "trace file of %s: %v", a.name, err)
+			}
+			if len(evs) != a.logged {
+				return r.fail("events/count", "the trace file of %s holds %d events at the end, %d attempts were made", a.name, len(evs), a.logged)
+			}
+		}
 	}
 	return nil
 }
@@ -618,18 +637,7 @@ func (r *runner) faultsOf(a *actor, bodyOnly bool) []attemptFault {
 func (r *runner) run(c chooser, bodyOnly bool) (string, *failure) {
 	for _, a := range r.actors {
 		if st := a.g.Start(); st.Ended || st.Hung {
-			if a.done && st.Ended && st.Err == nil && st.Panic == nil {
-				continue
-			}
 			return "", r.fail("start/failed", "Run of %s ended before its first label: err=%v panic=%v", a.name, st.Err, st.Panic)
-		}
-	}
-	for _, a := range r.actors {
-		if a.done && !a.g.Ended() {
-			// an archetype without sections is parked at Done
-			if last := a.g.Step(); !last.Ended {
-				return "", r.fail("done/not-ended", "Run of %s did not end at Done", a.name)
-			}
 		}
 	}
 	for {
@@ -665,6 +673,9 @@ func (r *runner) run(c chooser, bodyOnly bool) (string, *failure) {
 		if fl := r.stepActor(a); fl != nil {
 			return "", fl
 		}
+	}
+	if fl := r.finish(); fl != nil {
+		return "", fl
 	}
 	return r.m.render(), nil
 }
